@@ -153,6 +153,37 @@ def invariant_core():
     return cases
 
 
+def reentry_core():
+    """A `do` statement inside a loop whose block is abandoned (abort / break / continue in a handler, a do-for /
+    do-until limit) while the sub-behaviour runs, and which is reached again afterwards: printed with one
+    behaviour object per statement (shared), so the second start needs the first run to have been stopped."""
+    cases = []
+    sub = {"pre": [], "inv": [], "body": [["take", 5], ["log", "s1"], ["take", 6], ["take", 6], ["log", "s2"]]}
+    mains = [
+        [["while", "T", [["try", [["do", 2], ["take", 7]], [["a", [["take", 8], ["abort"]]]]], ["take", 4]]]],
+        [["while", "T", [["try", [["take", 1], ["take", 1]], [["a", [["do", 2]]], ["b", [["take", 9], ["break"]]]]], ["take", 4]]]],
+        [["while", "T", [["try", [["do", 2]], [["a", [["take", 8], ["continue"]]]]], ["take", 4]]]],
+        [["while", "T", [["dofor", 2, 2, "steps"], ["take", 4]]]],
+        [["while", "T", [["dountil", 2, "a"], ["take", 4]]]],
+        [["while", "T", [["do", 2], ["take", 4]]]],
+    ]
+    atabs = [[False, True, False, False, True, False, False], [False, False, True, False, False, False, True], [True, False, True, False]]
+    btabs = [[False, False, True, False, False, True, False], [False]]
+    for main in mains:
+        for ta in atabs:
+            for tb in btabs:
+                for shared in (True, False):
+                    cases.append({
+                        "defs": [{"pre": [], "inv": [], "body": main}, sub],
+                        "agents": [1], "monitors": [], "records": [],
+                        "termWhen": [], "termSimWhen": [], "termAfter": [],
+                        "maxSteps": 9, "dt": [1, 1],
+                        "table": {"T": [True], "F": [False], "a": ta, "b": tb},
+                        "sched": [[1]], "shared": shared,
+                    })
+    return cases
+
+
 def compose_interrupt_core():
     """try/interrupt in a COMPOSE block whose blocks invoke sub-scenarios: a pre-empted `do A()` must resume
     exactly where it stopped even when the handler invoked scenarios itself; while it is suspended A's compose
@@ -237,6 +268,11 @@ def main(tier):
     if tier == "quick":
         ccore = ccore[seed() % 3 :: 3]
     cases = core + nested_flow_core() + invariant_core() + ccore + rand
+    # every third case of the behaviour-level cores again, with each `do` statement invoking ONE behaviour object
+    # (created when the invoking behaviour starts): the expectation is the same -- a sub-behaviour that finished,
+    # or was stopped because its block was abandoned or its limit reached, can be started again
+    shared = [dict(c, shared=True) for c in (core + nested_flow_core() + invariant_core())[seed() % 3 :: 3] if "sdefs" not in c]
+    cases = cases + shared + reentry_core()
     global_rows = c12.run_batch(ck, cases, need_actions=["Setup", "BehaviorResume", "ExecuteActions", "Finish"], ideal_invariants=True)
     # as-implemented twins (spec deviation UnwindReturnImpl) for the cases that satisfy its trigger
     trig = [flow_triggers(c) for c in cases]
